@@ -41,6 +41,15 @@ pub fn generate(seed: u64, index: u64, thorough: bool) -> Scenario {
         _ => rng.usize_in(4, 30) as i64,
     };
     let n = ((mp as i64 + delta).max(1)) as usize;
+    // giant data sets (1 in 300, hash-selected): whole multiples of 4096 samples and counts
+    // between them, where blocked summations / blocked band computations change path
+    let gh = mix(seed, "C12-giant", index);
+    let giant = gh % 300 == 0;
+    let n = if giant {
+        [4096usize, 8192, 12288, 4097, 5000, 10_000, 16_384, 20_000][((gh >> 12) % 8) as usize]
+    } else {
+        n
+    };
     let wk = pick_weight_kind(&mut rng);
     let start = *rng.pick(&[Start::Near, Start::Mid, Start::Exact, Start::Far]);
     let noise = *rng.pick(&[1e-3, 5e-2, 0.3, 0.0]);
@@ -50,7 +59,7 @@ pub fn generate(seed: u64, index: u64, thorough: bool) -> Scenario {
     if rng.chance(0.15) {
         opt.patience = 1;
     }
-    opt.patience = opt.patience.min(40);
+    opt.patience = opt.patience.min(if giant { 4 } else { 40 });
     let mut sc = Scenario {
         property: "C12".into(),
         seed,
@@ -254,7 +263,8 @@ fn run_once<T: Sc, F: Factory<T>>(
                     }
                 }
                 if let Some(k) = n_opt {
-                    let tail = &evs[k.min(evs.len())..];
+                    let lib_end = f.lib_ev_to.saturating_sub(st.ev_from).clamp(k.min(evs.len()), evs.len());
+                    let tail = &evs[k.min(evs.len())..lib_end];
                     let sl = match sc.model.kind {
                         ModelKind::Hand => p + 2,
                         ModelKind::Builder => sc.model.funcs.iter().map(|f| f.params.len()).sum::<usize>() + 2 * m,
